@@ -2,7 +2,7 @@ ID = 'C16'
 CXX_SOURCES = []
 GROUPS = ['common']
 LIBS = []
-WRAP = ['epoll_wait', 'epoll_ctl', 'select']
+WRAP = ['epoll_wait', 'epoll_ctl', 'select', 'clock_gettime']
 
 import importlib.util as _ilu
 import os as _os
@@ -34,7 +34,9 @@ RULE = ('(a) timers: op histories (register single/repeating with interval from 
         'by a self-cancelling repeating timer that returns true / a cancel from another callback / from outside; idle RunOnce(block) with the poller really '
         'sleeping on the virtual clock (epoll_wait/select interposed: the timeout the poller passes advances the '
         'clock), sub-millisecond distances to the deadline, early=1 if a callback runs before registration+interval; whole iterations in which a loop callback (RunInLoop) '
-        'and/or a ready descriptor\'s on_data handler register timers (Model.runonce).  non-trivial = at least one callback ran and at least one state-changing op (register/cancel) '
+        'and/or a ready descriptor\'s on_data handler register timers (Model.runonce); 1..20 descriptors that stay ready while '
+        'timers are pending (>= MAX_EVENTS: one epoll_wait batch per iteration); the same cases on the real ola::Clock '
+        'with clock_gettime interposed (CLOCK_MONOTONIC = controlled time, other monotonic ids lag up to a 4 ms tick).  non-trivial = at least one callback ran and at least one state-changing op (register/cancel) '
         'happened; distinct = distinct model output line.  (b) pollers: see gen_poller.py RULE.')
 ASSUMPTIONS = ['operator new does not fail',
                'callbacks honour the API contract: CancelTimeout is only called with the id of a timer that is '
@@ -48,7 +50,7 @@ TRUSTED = ['modelled rather than verified: SelectServer::Register{Single,Repeati
            'CancelTimeout, ExecuteTimeouts, Event, SingleEvent::Trigger, RepeatingEvent::Trigger}',
            'harness interposes operator new/delete for objects of sizeof(Event subclass) during Register calls to '
            'choose the address deterministically; virtual time through a Clock subclass']
-SPEC_KEYS = ['consts', 'tr', 'rv', 'se', 'ss', 'early', 'e0', 'e1', 'e2', 'e3', 's0', 's1', 's2', 's3']
+SPEC_KEYS = ['consts', 'tr', 'rv', 'se', 'ss', 'early'] + ['e%d' % i for i in range(16)] + ['s%d' % i for i in range(16)]
 
 
 def _repo_text(rel):
@@ -304,6 +306,45 @@ def _composition_case(rng):
     return 'S ' + ';'.join(ops)
 
 
+def _busy_case(rng):
+    """timers while >= MAX_EVENTS descriptors stay ready (write ends of empty pipes): the poller never sleeps, every
+    iteration must still return and serve the due timers, on both back-ends"""
+    n = rng.choice([1, 9, 10, 11, 12, 20])
+    ops = []
+    for _ in range(rng.choice([1, 2, 3])):
+        us = rng.choice([0, 1, 1000, 1500, 5000])
+        ops.append('i%d,%d' % (rng.random() < 0.3 and us > 0, us))
+    ops.append('W%d' % n)
+    for _ in range(rng.choice([3, 5])):
+        ops.append(rng.choice(['x', 'y2000', 'a1000', 'a1500', 'x']))
+    ops += ['a5000', 'x', 'L0,0', 'x']
+    return 'S ' + ';'.join(ops)
+
+
+def _real_clock_case(rng):
+    """the same SelectServer cases on the REAL ola::Clock: clock_gettime is interposed, CLOCK_MONOTONIC returns the
+    controlled time, any other monotonic clock id a time lagging up to a 4 ms tick behind; registrations late in a
+    tick, checks right after a tick boundary"""
+    ops = ['a%d' % rng.choice([0, 1, 3999, 7999, 3500, 11999])]
+    for _ in range(rng.choice([1, 2, 3])):
+        us = rng.choice([1000, 2000, 4000, 5000, 8000, 10000, 12500, 20000])
+        rep = rng.random() < 0.25
+        ops.append(rng.choice(['i%d,%d' % (rep, us), 'm%d,%d' % (rep, max(1, us // 1000))]))
+        if rng.random() < 0.5:
+            ops.append('a%d' % rng.choice([1, 3999, 2000]))
+    t = 0
+    for _ in range(rng.choice([4, 6, 9])):
+        k = rng.random()
+        if k < 0.55:
+            ops += ['a%d' % rng.choice([1, 500, 2000, 3999, 4000, 4001, 1 + 4000 * rng.randrange(1, 4)]), 'x']
+        elif k < 0.8:
+            ops.append('y%d' % rng.choice([0, 1000, 4000, 20000]))
+        else:
+            ops += ['D0,%d' % rng.choice([0, 4000]), 'x']
+    ops += ['a30000', 'x']
+    return 'R ' + ';'.join(ops)
+
+
 def _sleep_case(rng):
     """idle RunOnce(block interval) with the poller sleeping on the virtual clock: sub-millisecond distances to
     the next deadline (EPoller sleeps whole milliseconds, SelectPoller the exact time)"""
@@ -338,6 +379,10 @@ def gen_cases(rng, tier):
         yield _sleep_case(rng)
     for _ in range(300 if quick else 20000):
         yield _composition_case(rng)
+    for _ in range(60 if quick else 2000):
+        yield _busy_case(rng)
+    for _ in range(300 if quick else 20000):
+        yield _real_clock_case(rng)
     for _ in range(400 if quick else 20000):
         yield _ss_case(rng)
     for _ in range(60 if quick else 1500):
@@ -355,7 +400,7 @@ def nontrivial(payload, md):
     if payload.startswith('P'):
         pm = _poller()
         return bool(pm and pm.nontrivial(payload, md))
-    if payload.startswith('S'):
+    if payload.startswith('S') or payload.startswith('R'):
         return 'F' in md.get('se', '')
     tr = md.get('tr', '')
     return 'F' in tr and ('G' in tr or 'C' in tr)
